@@ -102,6 +102,25 @@ func c11R4(c *Ctx, r *Report) {
 			})
 			return hit
 		}},
+		{"lowerBuiltinAppendCall", "appended element store", storeSink},
+		{"lowerResultUnwrap", "catch fallback merged with the ok value", func(info *types.Info, n ast.Node) bool { return mirLit(info, n, "Phi") }},
+		{"lowerExpr", "default of ??", func(info *types.Info, n ast.Node) bool {
+			// &mir.OptionalUnwrap{… HasDefault: true|hasDefault …}
+			hit := false
+			inspectShallow(n, func(x ast.Node) bool {
+				if cl, ok := x.(*ast.CompositeLit); ok && mirLit(info, cl, "OptionalUnwrap") {
+					for _, e := range cl.Elts {
+						if kv, ok := e.(*ast.KeyValueExpr); ok && exprStr(kv.Key) == "HasDefault" {
+							if v := constOf(info, kv.Value); v == nil || boolVal(v) {
+								hit = true
+							}
+						}
+					}
+				}
+				return true
+			})
+			return hit
+		}},
 		{"lowerExpr", "optional payload", func(info *types.Info, n ast.Node) bool { return mirLit(info, n, "OptionalSome") }},
 		{"lowerExpr", "result ok payload", func(info *types.Info, n ast.Node) bool { return mirLit(info, n, "ResultOk") }},
 		{"lowerExpr", "result error payload", func(info *types.Info, n ast.Node) bool { return mirLit(info, n, "ResultErr") }},
